@@ -23,7 +23,7 @@ EvToml == /\ IsEv("Toml")
                 ELSE IF o = Eval(Ev.lex, KnownDevs)
                 THEN IF Matters(Ev.lex) = {} THEN PrintT(<<"OBS", "Dev_Unattributed", l>>)
                      ELSE \A d \in Matters(Ev.lex) : PrintT(<<"OBS", "Dev_" \o d, l>>)
-                ELSE IF o.p1 = "hang" THEN Judge(FALSE, "T4 parse does not terminate")
+                ELSE IF o.p1 = "hang" \/ o.p2 = "hang" THEN Judge(FALSE, "T4 parse does not terminate")
                 ELSE IF o.p1 \notin {"ok", "rej"} THEN Judge(FALSE, "T4 crash / foreign exception")
                 ELSE IF o.p1 # a.p1 THEN Judge(FALSE, IF a.p1 = "rej" THEN "T3 invalid document accepted" ELSE "T1 valid document rejected")
                 ELSE IF o.t1 # a.t1 THEN Judge(FALSE, "T1 parsed tree differs from the TOML meaning")
